@@ -878,7 +878,8 @@ func c16BlockNeighbours(c *Ctx, r *Rng) {
 			fieldLine[k] = len(lines)
 			lines = append(lines, fmt.Sprintf("---@field f%d %s", k, rr.Pick(types)))
 		}
-		lines = append(lines, "local Blk = {}", "", "---@type Blk", "local bv = {}")
+		// (a plain comment line closes each block; the placement variant below turns it into a long-bracket comment)
+		lines = append(lines, "-- c16-sep", "local Blk = {}", "", "---@type Blk", "local bv = {}")
 		type probe struct {
 			line, col int
 			what      string
@@ -904,7 +905,7 @@ func c16BlockNeighbours(c *Ctx, r *Rng) {
 		for k := 0; k < nf; k++ {
 			ps = append(ps, fmt.Sprintf("q%d", k))
 		}
-		lines = append(lines, fmt.Sprintf("local function pf(%s)", strings.Join(ps, ", ")))
+		lines = append(lines, "-- c16-sep", fmt.Sprintf("local function pf(%s)", strings.Join(ps, ", ")))
 		for k := 0; k < nf; k++ {
 			probes = append(probes, probe{len(lines), 8, fmt.Sprintf("param q%d", k), nf + k})
 			lines = append(lines, fmt.Sprintf("  print(q%d)", k))
@@ -969,6 +970,13 @@ func c16BlockNeighbours(c *Ctx, r *Rng) {
 			ll := append([]string{}, lines...)
 			var used []string
 			for li := 1; li < len(ll); li++ {
+				// (only below the class block: a class is registered whatever follows its block, whereas the parameter
+				// lines of a function have to stand directly above it - a long comment in between detaches them, by design)
+				if ll[li] == "-- c16-sep" && strings.HasPrefix(ll[li+1], "local Blk") && rl.Bool() {
+					// a long-bracket comment between the block and the statement it annotates
+					ll[li] = rl.Pick([]string{"--[[ sep ]]", "--[==[ sep ]==]", "--[[sep]] -- and more"})
+					used = append(used, ll[li])
+				}
 				if ll[li-1] == "" && strings.HasPrefix(ll[li], "---@") {
 					f := rl.Pick(fillers)
 					ll[li-1] = fmt.Sprintf(f, li, li)
